@@ -77,10 +77,11 @@ void arm_fault(Src &s) {
     case 4: sim_script(SYS_WRITE, -1, ACT_FAIL, EAGAIN); sim_script(SYS_WRITEV, -1, ACT_FAIL, s.pick((const int[]){EAGAIN, EPIPE, ECONNRESET})); TR("  fault: write"); break;
     case 5: sim_script(SYS_READ, -1, ACT_FAIL, EAGAIN); sim_script(SYS_READV, -1, ACT_FAIL, s.pick((const int[]){EAGAIN, ECONNRESET})); TR("  fault: read"); break;
     case 6: sim_script(SYS_ACCEPT, -1, ACT_FAIL, s.pick((const int[]){EMFILE, ECONNABORTED, EAGAIN})); TR("  fault: accept"); break;
+    case 7: sim_lockmon_fail_try(2); TR("  fault: try-lock fails (held by another thread)"); break;
     default: break;
   }
 }
-void disarm() { sim_mem_fail_at(0, 0); sim_script_clear(); }
+void disarm() { sim_mem_fail_at(0, 0); sim_script_clear(); sim_lockmon_fail_try(0); }
 void note(int r) { if (r != 0) G->failed_calls++; }
 
 int64_t wait_hook(const struct sim_wait_info *wi, void *) {
@@ -131,7 +132,7 @@ extern "C" int LLVMFuzzerTestOneInput(const uint8_t *data, size_t size) {
     // (bufferevent_pair_new -> finalizer with NULL arg; a NULL evbuffer_add_cb result passed to evbuffer_cb_set_flags),
     // which is a memory-safety matter outside this property and would mask everything behind it.
     if (op == 15 || op == 21 || op == 22 || op == 23 || op == 25 /* bufferevent_setwatermark: same NULL cb entry */ || op == 26 || op == 29 || op == 32 || op == 37) sim_mem_fail_at(0, 0);
-    uint64_t f0 = sim_mem_failed; uint64_t sf0 = 0; for (int k = 0; k < SYS__N; k++) sf0 += sim_sys_faults[k];
+    uint64_t f0 = sim_mem_failed, tf0 = sim_try_failed; uint64_t sf0 = 0; for (int k = 0; k < SYS__N; k++) sf0 += sim_sys_faults[k];
     int i = s.below(6), r = 0;
     TR("op %d i=%d", op, i);
     switch (op) {
@@ -257,7 +258,7 @@ extern "C" int LLVMFuzzerTestOneInput(const uint8_t *data, size_t size) {
       default: { OP("event_base_loop", event_base_loop(w.base, EVLOOP_NONBLOCK)); break; }
     }
     uint64_t sf1 = 0; for (int k = 0; k < SYS__N; k++) sf1 += sim_sys_faults[k];
-    if (sim_mem_failed != f0 || sf1 != sf0) w.faults_consumed++;
+    if (sim_mem_failed != f0 || sf1 != sf0 || sim_try_failed != tf0) w.faults_consumed++;
     disarm();
     quiesce(w.last_op);
   }
